@@ -155,7 +155,7 @@ func main() {
 	if *budget == 0 {
 		*budget = 100
 		if *tier == "thorough" {
-			*budget = 1500
+			*budget = 3000
 		}
 		if p.Budget != nil {
 			*budget = p.Budget(*tier)
